@@ -9,8 +9,28 @@ CHECKS = {
     'C01': dict(
         technique='static analysis: path enumeration of the dispatch loop, def-use (deep-copy isolation), call-shape of entry points, generator typestate of package steps',
         text='Decides the structural clauses of C01 on every path of the code: every link is dispatched or rejected (R1), each step edits a deep copy of the upstream descriptor (R2), results/process/datastream fold the same chain and the shared driver drains every stream (R3), descriptors and streams are paired without truncation (R4), every function-style package step yields the package first and never writes the descriptor afterwards (R5). It does not decide the behavioural equality of lazy and step-by-step evaluation over all programs and inputs.',
-        note='Own ast-based resolver (no type checker available); LF1 (datapackage Resource/Package descriptor ownership); steps are located by the framework\'s own dispatch key (parameter name).',
+        note="Own ast-based resolver (no type checker available); LF1 (datapackage Resource/Package descriptor ownership); steps are located by the framework's own dispatch key (parameter name).",
         ref='DESIGN.md §5 C01'),
+    'C02': dict(
+        technique='static analysis: guarded path signatures (descriptor count vs stream count per guard valuation), def-use phase coupling, abstract interpretation over the Table-Schema type lattice, isinstance-order rule',
+        text='Decides necessary structural conditions of C02: one yielded stream per emitted descriptor under every valuation of the selection atoms (R6a/R6b, R4, R26), row wrappers of field-changing steps configured from what was written into the schema and using it (R11), declared types of join / add_computed_field aggregates above their abstractly computed types (R18), no shadowed isinstance branch in type inference (R17), descriptor edits only under MATCH (R7), a name-collision test before a new resource is added (R27). Value validity for user callables, tabulator inference and data-dependent cases is not decided.',
+        note='Known findings (listed, reported as KNOWN-FINDING): median over integers, name collisions of sources/duplicate/concatenate/load/explicit iterable names. concatenate run detection is not modelled. LF1, LF8.',
+        ref='DESIGN.md §5 C02'),
+    'C04': dict(
+        technique='static analysis: classification of every except handler (always-raises / narrow local fallback / frozen), no-return proof of the funnel helper, stash re-raise def-use, commit-point ordering on enumerated paths',
+        text='Decides that no handler on a run path swallows an exception (R14), that the funnel helper raises on all paths and carries cause and step identity (R14f), that stashed source errors are re-raised after inference (R14s), and that checkpoint rename / dump descriptor / finalisation sit after the loop over all streams and outside except/finally (R15). Does not decide behaviour of third-party iterators or of worker processes.',
+        note='Known findings: parallelize.producer / parallelize.work swallow errors (three handlers). Python generator semantics (an exception at a yield leaves the loop) is trusted.',
+        ref='DESIGN.md §5 C04'),
+    'C06': dict(
+        technique='static analysis: interprocedural stream-level abstract interpretation (iterator-of-resources / iterator-of-rows / other) to a fixpoint, sink classification, accumulate-then-yield rule, lazy-chain shape',
+        text='Decides that in all non-buffering modules no upstream stream reaches a materialising sink (list/sorted/len/comprehension/*/tee/join...), the only accepted bounded idiom being list(islice(s, const)); that generators yield inside the loop that reads upstream; and that the chain is built lazily (LazyIterator over get_iterator, no iteration in _process). The numeric bound itself and user callables are not decided.',
+        note='Buffering steps (sort_rows, join, duplicate, dump_to_sql, parallelize) are outside the property quantifier and out of scope; the terminal driver safe_process is exempt. Lazy behaviour of itertools / zip / enumerate / map / filter and of tabulator/datapackage iterators is trusted.',
+        ref='DESIGN.md §5 C06'),
+    'C10': dict(
+        technique='static analysis: abstract kind inference of matcher arguments, branch-by-branch check of the matcher class, guard dominance in package phases, unmatched-path identity signatures in stream phases, call arity binding',
+        text='Decides that every ResourceMatcher is built from a Package / package descriptor (R8), that the matcher class implements the four selector forms (None/str anchored/int by index/list) and the three answers of match() (RM, R9), that descriptor edits are dominated by MATCH (R7), that unmatched resources are yielded once as the identical object in every selector-taking step (R6c), and that every resolved call binds to its callee signature (R10). Regex semantics beyond anchoring are not decided.',
+        note='Known finding: printer builds its matcher from a resource descriptor (integer selectors fail).',
+        ref='DESIGN.md §5 C10'),
 }
 
 NOT_BUILT = 'check not built yet in this session (see DESIGN.md §5 for the planned static rules)'
